@@ -300,6 +300,46 @@ def run(ctx, budget=None):
             if tr not in measured_bad:
                 rep.tie_break("table", "soundTable row not confirmed by the implementation", {"triple": tr})
 
+    # ---- Tie B for the model of the WHOLE vocabulary (Operator + hand-written renderers, measured table):
+    # same text as the real formatter, and "precedence-compatible" (what the theorem promises) means it round-trips
+    if ctx.driver and ctx.gen.get("all_ops"):
+        names = {o["name"]: o["kind"] for o in ctx.gen["all_ops"]}
+        trees = [t for _, t in g.depth2()]
+        for _ in range(1500 if ctx.quick else 30000):
+            g.n = 0
+            t = g.random(ctx.rng.choice([2, 3, 4, 5]))
+            if g.root(t) is not None:
+                trees.append(t)
+        reqs2, keep = [], []
+        for t in trees:
+            t2 = GT.to_T2(t, names)
+            if t2 is not None:
+                reqs2.append({"op": "fmt2", "t": t2})
+                keep.append(t)
+        ans2 = ctx.driver.batch(reqs2)
+        bad2 = 0
+        for t, a in zip(keep, ans2):
+            if "error" in a:
+                raise C.InfraError("driver: " + a["error"])
+            f = R.format_raw({"select": {"value": t}})
+            real_sql = f[1][len("SELECT "):] if f[0] == "ok" and f[1].startswith("SELECT ") else str(f)
+            rep.count("tie", "fmt2-text")
+            if norm_sql(real_sql) != norm_sql(a["sql"]):
+                bad2 += 1
+                if bad2 <= 5:
+                    rep.tie_break("correspondence", "Fmt2.fmt vs format (whole vocabulary)", {"tree": t, "real": real_sql, "model": a["sql"]})
+                continue
+            if a["admissible"] and not a["ok"]:
+                raise C.InfraError("model: admissible tree whose output is not compatible (contradicts the theorem): " + json.dumps(t))
+            if a["ok"]:
+                okk, obs, _ = roundtrip(R, "select", t)
+                rep.count("tie", "fmt2-compatible-roundtrips")
+                if not okk and not raise_key(obs):
+                    bad2 += 1
+                    if bad2 <= 5:
+                        rep.tie_break("correspondence", "model says compatible, the real round trip fails", {"tree": t, "observed": obs})
+        rep.count("correspondence_mismatches_fmt2", None, bad2)
+
     # ---- random deeper trees (must avoid the measured-bad edges: those are reported above, once each)
     n = budget or (3000 if ctx.quick else 60000)
     tried = 0
